@@ -86,7 +86,8 @@ impl Cache for MemoryStore {
                     if key_value.header.cas != record.header.cas {
                         Err(CacheError::KeyExists)
                     } else {
-                        record.header.cas += 1;
+                        // every successful mutation gets a CAS the item has not carried before
+                        record.header.cas = self.get_cas_id();
                         record.header.timestamp = self.timer.timestamp();
                         let cas = record.header.cas;
                         *key_value = record;
